@@ -27,6 +27,22 @@ class _Sink:
         return len(b)
 
 
+class _QuietSeek:
+    """A readable stream written by hand: read / seek / tell work, seek returns None (as mmap.seek does before Python 3.13)."""
+
+    def __init__(self, raw):
+        self.raw = raw
+
+    def read(self, n=-1):
+        return self.raw.read(n)
+
+    def seek(self, *a):
+        self.raw.seek(*a)
+
+    def tell(self):
+        return self.raw.tell()
+
+
 def writers_agree(obj, data, prop):
     f = BytesIO()
     obj.write_to(f)
@@ -68,15 +84,38 @@ def loaders_agree(data, want_snap, snap_fn, prop, suffix):
 
     from rv.api import read_sunvox_file
 
+    import mmap
+
+    def same(o, how):
+        d = snapshot.diff(want_snap, snap_fn(o)) if o is not None else [("", "an object", None)]
+        if d:
+            raise PropertyViolation(prop + ".path_vs_stream", "loaded from %s: %s" % (how, "; ".join("%s: %r -> %r" % x for x in d[:3])), key=prop + ".path_vs_stream")
+
+    # the file sits behind something else in its stream (an application's own header): loading starts where the stream stands
+    f0 = BytesIO(b"APPHEADER!" + data)
+    f0.seek(10)
+    same(read_sunvox_file(f0), "a BytesIO positioned after 10 other bytes")
+    same(read_sunvox_file(_QuietSeek(BytesIO(data))), "a stream object whose seek() returns nothing")
     fd, name = tempfile.mkstemp(suffix=suffix, prefix="rvverif_")
     try:
         with os.fdopen(fd, "wb") as f:
+            f.write(b"APPHEADER!" + data)
+        with open(name, "rb") as f:
+            f.seek(10)
+            same(read_sunvox_file(f), "an open file positioned after 10 other bytes")
+        with open(name, "wb") as f:
             f.write(data)
         for how, arg in (("str path", name), ("pathlib.Path", Path(name))):
-            o = read_sunvox_file(arg)
-            d = snapshot.diff(want_snap, snap_fn(o))
-            if d:
-                raise PropertyViolation(prop + ".path_vs_stream", "loaded from a %s: %s" % (how, "; ".join("%s: %r -> %r" % x for x in d[:3])), key=prop + ".path_vs_stream")
+            same(read_sunvox_file(arg), "a " + how)
+        with open(name, "rb", buffering=0) as f:
+            same(read_sunvox_file(f), "an unbuffered file object")
+        if data:
+            with open(name, "rb") as f:
+                mm = mmap.mmap(f.fileno(), 0, access=mmap.ACCESS_READ)
+                try:
+                    same(read_sunvox_file(mm), "an mmap object")
+                finally:
+                    mm.close()
     finally:
         try:
             os.unlink(name)
